@@ -75,7 +75,7 @@ func main() {
 		c.decodeSide(c.accepted("evolution", "nocopy"), n, false)
 		c.spanOps(40 * n)
 	case "C07":
-		c.cacheHistory(150 * n)
+		c.cacheHistory(60 * n)
 		c.resolveAll(true)
 		c.history(all, 400*n)
 		c.poolResidue(c.accepted("ids", "recursive", "leaf", "evolution", "scalars"), 200*n)
@@ -104,7 +104,7 @@ func main() {
 		c.encodeSide(c.accepted("spellings"), 2*n, false)
 		c.roundTrip(c.accepted("spellings"), n)
 	case "C13":
-		c.cacheHistory(150 * n)
+		c.cacheHistory(60 * n)
 		c.resolveAll(true)
 		c.argOps()
 		c.resolveAll(false)
